@@ -121,11 +121,19 @@ func (r *Run) SetBound(k string, v interface{}) { r.Bound[k] = v }
 
 // Case runs one case body (twice when it fails, to make sure the failure is deterministic).
 // nontrivial: whether the case counts towards distinct_nontrivial.
-func (r *Run) Case(id string, nontrivial bool, body func() *Fail) {
-	if r.ReplayCase != "" && id != r.ReplayCase {
-		return
-	}
-	if r.OnlyRe != nil && !r.OnlyRe.MatchString(id) {
+func (r *Run) Case(id string, nontrivial bool, body func() *Fail) { r.runCase(id, nontrivial, body, false) }
+
+// CaseAlways is Case for explorers whose body also computes successor states: when the case is filtered out
+// (replay of another case) the body still runs, but nothing is counted or recorded.
+func (r *Run) CaseAlways(id string, nontrivial bool, body func() *Fail) {
+	r.runCase(id, nontrivial, body, true)
+}
+
+func (r *Run) runCase(id string, nontrivial bool, body func() *Fail, always bool) {
+	if (r.ReplayCase != "" && id != r.ReplayCase) || (r.OnlyRe != nil && !r.OnlyRe.MatchString(id)) {
+		if always {
+			protect(body)
+		}
 		return
 	}
 	r.Evaluations++
